@@ -22,4 +22,5 @@ def run(ctx, rep):
     rep.rule('E4', e4_bitseq.__doc__.strip().split('\n')[0])
     e4_bitseq.run(facts, rep)
     e4_bitseq.check_display(facts, rep)
+    e4_bitseq.check_no_narrowing(facts, rep)
     rep.callsites += sum(len(facts.bodies[k].calls()) for k in rep.functions if k in facts.bodies)
